@@ -1,11 +1,13 @@
 """C10: dropping or finishing an MT reader/writer releases all of its threads; worker bound."""
 from vlib import core
-from checks.mtplans import run_plan, reader_cfgs, writer_cfgs
+from checks.mtplans import run_plan, reader_cfgs, writer_cfgs, run_replay
 
 
 def run(tier, replay=None):
     ctx = core.Check("C10", tier, "model_checking")
     core.build_harness()
+    if replay:
+        return run_replay(ctx, {"C10"}, replay)
     quick = tier == "quick"
     rows = []
     # drop at every idle point of the read history (before any I/O, mid-stream, after eof, after an error)
